@@ -81,7 +81,7 @@ def postInboxScheme (F : TFacts) (cfg : BaseCfg) (r : Request) : Prog Handled :=
   | .badRequest => do Op.writeHeader 400; pure .handled
   | .val _ v =>
   if !isActivityIface F v then Prog.fail .lib else
-  if idState v == .absent then do Op.writeHeader 400; pure .handled else
+  if !idUsable v then do Op.writeHeader 400; pure .handled else
   Op.hookInbox v
   let authorized ← authorizePostInbox F v
   if !authorized then pure .handled else
